@@ -116,11 +116,16 @@ Fixpoint heap_mapping_from (next : nat) (ts : list pty) : list (option nat) :=
   end.
 Record sort_layout := { sl_offsets : list N; sl_widths : list N; sl_compare : N; sl_width : N;
                         sl_heap_mapping : list (option nat); sl_heap : row_layout }.
-Inductive outcome (A : Type) := Ok (a : A) | Panic.
+Inductive outcome (A : Type) := Ok (a : A) | Err | Panic.
 Arguments Ok {A} a.
+Arguments Err {A}.
 Arguments Panic {A}.
+Definition is_nested (t : pty) : bool := match t with PList | PStruct => true | _ => false end.
+(* since 59d348515 the loop starts with `if matches!(phys_type, List | Struct) { not_implemented!(..) }`, so the
+   `unimplemented!()` of the width function (Panic) is no longer reached *)
 Definition sort_layout_of (ts : list pty) : outcome sort_layout :=
-  if forallb (fun t => match key_w t with Some _ => true | None => false end) ts then
+  if existsb is_nested ts then Err
+  else if forallb (fun t => match key_w t with Some _ => true | None => false end) ts then
     let p := offsets_from key_w0 0 ts in
     Ok {| sl_offsets := fst p; sl_widths := map key_w0 ts; sl_compare := snd p; sl_width := snd p + row_index_width;
           sl_heap_mapping := heap_mapping_from 0 ts; sl_heap := row_layout_of (filter is_heap_key ts) |}
